@@ -20,7 +20,8 @@ import (
 // .length / [i] / a method call - may change them. Every sequence of up to two
 // intervening actions over {action kind} x {string} is run after creating
 // A = new String(s1); afterwards every retained object is read through every
-// read form, the oldest one once more at the end (after the others were read).
+// read form, in two orders (property reads before method calls and the reverse),
+// the oldest one once more at the end (after the others were read).
 // All cases of a worker share one runtime on purpose: state left behind by
 // earlier cases must not matter either.
 
@@ -34,16 +35,27 @@ const multiDriver = `(function(){
   var vals = Array.prototype.slice.call(arguments, 0, 7), acts = Array.prototype.slice.call(arguments, 7);
   function code(x) { return x === undefined ? "u" : typeof x !== "string" ? "?" + typeof x : x.length === 0 ? "e" : x.length === 1 ? String(x.charCodeAt(0)) : "long" + x.length; }
   function codes(s) { var l = []; for (var i = 0; i < s.length; i++) l.push(s.charCodeAt(i)); return l.join("."); }
-  function dump(o) {
-    var out = ["len=" + o.length];
-    for (var i = 0; i <= o.length; i++) {
-      var c = o.charCodeAt(i), sur = c >= 0xD800 && c < 0xE000;
-      var d = Object.getOwnPropertyDescriptor(o, String(i));
-      out.push(i + ":" + c + ":" + (sur ? "-" : code(o[i])) + ":" + (sur ? "-" : code(o.charAt(i))) + ":" + (sur ? "-" : d ? code(d.value) : "none") + ":" + (i in o) + ":" + Object.prototype.hasOwnProperty.call(o, i));
+  // the read forms are evaluated in two orders (property reads first / method calls first):
+  // a read must not depend on which other read came before it
+  function dump(o, methodsFirst) {
+    var n = o.length, ix = [], ds = [], ins = [], owns = [], cc = [], ca = [], k = [], str, val, cat;
+    function props() {
+      for (var i = 0; i <= n; i++) { ix[i] = o[i]; }
+      for (var i = 0; i <= n; i++) { ds[i] = Object.getOwnPropertyDescriptor(o, String(i)); ins[i] = (i in o); owns[i] = Object.prototype.hasOwnProperty.call(o, i); }
+      for (var q in o) k.push(q);
     }
-    var k = []; for (var n in o) k.push(n);
+    function methods() {
+      for (var i = 0; i <= n; i++) { cc[i] = o.charCodeAt(i); ca[i] = o.charAt(i); }
+      str = String(o); val = o.valueOf(); cat = "" + o;
+    }
+    if (methodsFirst) { methods(); props(); } else { props(); methods(); }
+    var out = ["len=" + n];
+    for (var i = 0; i <= n; i++) {
+      var sur = cc[i] >= 0xD800 && cc[i] < 0xE000;
+      out.push(i + ":" + cc[i] + ":" + (sur ? "-" : code(ix[i])) + ":" + (sur ? "-" : code(ca[i])) + ":" + (sur ? "-" : ds[i] ? code(ds[i].value) : "none") + ":" + ins[i] + ":" + owns[i]);
+    }
     out.push("keys=" + k.sort().join(","));
-    out.push("str=" + codes(String(o)) + " val=" + codes(o.valueOf()) + " cat=" + codes("" + o));
+    out.push("str=" + codes(str) + " val=" + codes(val) + " cat=" + codes(cat));
     return out.join(" ");
   }
   var objs = [], sink;
@@ -58,12 +70,13 @@ const multiDriver = `(function(){
       case 5: sink = Object(v)[1]; break;
       case 6: for (var q in Object(v)) sink = q; break;
       case 7: sink = v.charCodeAt(0); break;
-      case 8: sink = dump(objs[0]); break;
+      case 8: sink = dump(objs[0], true); break;
     }
   }
   var res = [];
-  for (var j = 0; j < objs.length; j++) res.push(dump(objs[j]));
-  res.push(dump(objs[0]));
+  for (var j = 0; j < objs.length; j++) res.push(dump(objs[j], false));
+  for (var j = 0; j < objs.length; j++) res.push(dump(objs[j], true));
+  res.push(dump(objs[0], false));
   return res.join("\n");
 })`
 
@@ -145,8 +158,10 @@ func runMulti(r *engine.Run) {
 			res := rawString(e.invoke(multiDriver, otto.UndefinedValue(), flat))
 			r.End()
 			var exp []string
-			for _, v := range retained {
-				exp = append(exp, multiDump(multiStrings[v]))
+			for pass := 0; pass < 2; pass++ {
+				for _, v := range retained {
+					exp = append(exp, multiDump(multiStrings[v]))
+				}
 			}
 			exp = append(exp, multiDump(multiStrings[s1]))
 			expS := strings.Join(exp, "\n")
